@@ -198,6 +198,19 @@ func genColumns(c *ctx) (string, error) {
 				if fid, ok := x.Fun.(*ast.Ident); ok && fid.Name == "checkForMissingColumns" {
 					checksMissing = true
 				}
+				// the check made through a helper of the library whose body calls MissingRequiredColumns
+				if fid, ok := x.Fun.(*ast.Ident); ok {
+					if hd := findFunc(p, fid.Name); hd != nil && hd.Body != nil && hd != fd {
+						ast.Inspect(hd.Body, func(m ast.Node) bool {
+							if c2, ok := m.(*ast.CallExpr); ok {
+								if s2, ok := c2.Fun.(*ast.SelectorExpr); ok && s2.Sel.Name == "MissingRequiredColumns" {
+									checksMissing = true
+								}
+							}
+							return true
+						})
+					}
+				}
 			}
 			return true
 		})
